@@ -451,7 +451,8 @@ class Session(object):
         if fn is None and cfg.get('raising'):
             self.fn.set_raising(cfg, cfg['raising'])
         if cacheobj == 'open':
-            cacheobj = open_backend(cfg['backend'], root, name)
+            # 'attach_later': the function is decorated WITHOUT an archive; a history op attaches one through the public f.archive(obj)
+            cacheobj = None if cfg.get('attach_later') else open_backend(cfg['backend'], root, name)
         self.cacheobj = cacheobj
         self.dec = build_decorator(cfg, cacheobj)
         self.f = self.dec(self.fn.f)
@@ -537,6 +538,10 @@ def apply_op(sess, op, trace, observe=True, prev=None):
             f.archived(False)
         elif kind == 'arch_on':
             f.archived(True)
+        elif kind == 'attach':
+            if sess.cfg.get('attach_later') and not getattr(sess, 'attached', False):
+                f.archive(open_backend(sess.cfg['backend'], sess.root, 'A', cached=False))
+                sess.attached = True
         elif kind == 'arch_query':
             st.result = f.archived()
         elif kind == 'cache_get':
